@@ -7,6 +7,8 @@
 #include <unistd.h>
 #include <sys/wait.h>
 #include <vector>
+#include <thread>
+#include <cstring>
 #include "tfhe.h"
 typedef long long ll;
 static void dy(double d) {
@@ -38,6 +40,32 @@ static void history(int id, const std::vector<ll> &seq) {
     int st = 0; waitpid(pid, &st, 0);
     if (WIFSIGNALED(st) || WEXITSTATUS(st) != 0) printf("H %d -1 0 ABORT 0\n", id);
 }
+// a set requested by a helper thread that has exited before the set is read (thread pools, start-up threads): "T id pos lam OK ..."
+// plus "X lam <alpha_max of the extracted parameters>"
+static void threaded(int id, const std::vector<ll> &seq) {
+    fflush(stdout);
+    pid_t pid = fork();
+    if (pid == 0) {
+        if (!freopen("/dev/null", "w", stderr)) {}
+        for (size_t i = 0; i < seq.size(); i++) {
+            TFheGateBootstrappingParameterSet *p = 0; ll lam = seq[i];
+            std::thread t([&]() { p = new_default_gate_bootstrapping_parameters((int32_t) lam); }); t.join();
+            for (int r = 0; r < 64; r++) { void *q = malloc(16 + 8 * r); memset(q, 0x5A, 16 + 8 * r); free(q); }   // recycle what the thread's exit may have freed
+            const LweParams *lp = p->in_out_params; const TGswParams *gp = p->tgsw_params; const TLweParams *tp = gp->tlwe_params;
+            printf("T %d %zu %lld OK %d", id, i, lam, lp->n); dy(lp->alpha_min); dy(lp->alpha_max);
+            printf(" %d %d", tp->N, tp->k); dy(tp->alpha_min); dy(tp->alpha_max);
+            printf(" %d %d %d %d %u %d %u", gp->l, gp->Bgbit, gp->Bg, gp->halfBg, gp->maskMod, gp->kpl, gp->offset);
+            printf(" %d %d %d", p->ks_t, p->ks_basebit, tp->extracted_lweparams.n);
+            dy(tp->extracted_lweparams.alpha_min);
+            for (int j = 0; j < gp->l && j < 64; j++) printf(" %d", gp->h[j]);
+            printf("\n");
+            printf("X %lld", lam); dy(tp->extracted_lweparams.alpha_max); printf("\n"); fflush(stdout);
+        }
+        _exit(0);
+    }
+    int st = 0; waitpid(pid, &st, 0);
+    if (WIFSIGNALED(st) || WEXITSTATUS(st) != 0) printf("T %d -1 0 ABORT 0\n", id);
+}
 int main() {
     std::vector<ll> lams; for (ll l = -5; l <= 300; l++) lams.push_back(l);
     lams.push_back(INT_MIN); lams.push_back(INT_MAX); lams.push_back(INT_MIN + 1); lams.push_back(1000000);
@@ -58,5 +86,6 @@ int main() {
     ll m[] = {80, 128, 80, 81, 1, 128, 100, 50, 81, 80};
     for (ll x : m) mix.push_back(x);
     history(0, up); history(1, down); history(2, mix);
+    threaded(0, mix);
     return 0;
 }
